@@ -271,10 +271,14 @@ def user_options(rng, dense=False):
     if rng.random() < pr:
         p.append("flags=%d" % rng.choice([0, 0x100, 0x110, 0x1, 0x101, 0x2, 0x102, 0x10, 0x400, 0x7ff, 0x120, 0x140, 0x300, 0x200 if rng.random() < 0.2 else 0x100]))
     c = rng.random()
-    if c < pr * 0.6:
+    if c < pr * 0.55:
         p.append("timeoutms=%d" % rng.choice([1, 250, 1234, 2000, 5000, 2147483647, 0, -1]))
+    elif c < pr * 0.95:
+        p.append("timeout=%d" % rng.choice([1, 2, 5, 30, 2147483, 2147484, 3000000, 4294967, 4294968, 2147483647, 0, -1]))
     elif c < pr:
-        p.append("timeout=%d" % rng.choice([1, 2, 5, 30, 2147483, 2147484, 3000000, 4294967, 4294968, 0, -1]))
+        # both bits name the same field: the C driver passes the value of timeout=
+        v = rng.choice([1, 5, 2147484, 0, -1])
+        p.append("timeoutms=%d&timeout=%d" % (v, v))
     if rng.random() < pr:
         p.append("tries=%d" % rng.choice([1, 2, 3, 5, 100, 2147483647, 0, -1]))
     if rng.random() < pr:
@@ -412,7 +416,6 @@ def gen_opt(rng):
         params.append("lip6=" + bytes(rng.randint(0, 255) for _ in range(16)).hex())
     if rng.random() < 0.6:
         params.append("poke=1")
-    # never ARES_OPT_TIMEOUT together with ARES_OPT_TIMEOUTMS (see docs/C16.md: uninitialised read in ares_dup)
     base = valid_resolv_lines(rng) if rng.random() < 0.8 else ["nameserver 9.9.9.9"]
     us = units("L", base)
     if rng.random() < 0.3:
